@@ -379,6 +379,19 @@ func TestVerifC01(t *testing.T) {
 		c5.SvcPaused = true
 		ps5 := plNewServer(t, c5)
 		ask(ps5, "x.test.", dns.TypeA, "blocked-service-paused")
+		for _, paused := range []bool{false, true} {
+			// the pause schedule in a zone that is on another weekday now
+			cz := base()
+			cz.Svcs, cz.SvcPaused, cz.SvcZoned = []string{"vf_beta"}, paused, true
+			cz.Clients = []plClient{{Name: "kid", IPs: []string{"10.0.0.2"}, UseOwnSvc: true, Svcs: []string{"vf_alpha"}, SvcPaused: !paused}}
+			psz := plNewServer(t, cz)
+			cls := []string{"blocked-service-schedule-other-weekday-zone"}
+			if cz.svcZone == "" {
+				cls = nil
+			}
+			ask(psz, "x.test.", dns.TypeA, cls...)
+			emit(psz, &plQuery{Name: "c.b.a.test.", QType: dns.TypeA, Addr: netip.MustParseAddr("10.0.0.2"), Answer: c01Answer(rnd.Fork(7), "c.b.a.test.", dns.TypeA)}, cls...)
+		}
 		c6 := base()
 		c6.ProtEnabled = false
 		c6.Block = []*vfRule{{ID: 100, Pattern: "||a.test^"}}
@@ -574,6 +587,62 @@ func TestVerifC01(t *testing.T) {
 		c2.DHCPOn = true
 		c2.Leases = c.Leases
 		askX(plNewServer(t, c2), &plQuery{Name: "kid.lan.", QType: dns.TypeAAAA, Private: true}, "dhcp-host-aaaa-no-dns64")
+	}
+
+	// --- round 3: rule lists switched off and on again through the web API
+	{
+		// a block list with the name, disabled, then enabled again while its
+		// source serves the same bytes: blocked, forwarded, blocked
+		c := base()
+		c.Lists = []*plList{{Name: "ads", Rules: []*vfRule{{ID: 100, Pattern: "||a.test^"}}},
+			{Name: "other", Rules: []*vfRule{{ID: 110, Pattern: "||xa.test^"}}},
+			{Name: "ok", White: true, Rules: []*vfRule{{ID: 200, Pattern: "||x.test^"}}}}
+		ps := plNewServer(t, c)
+		step := func(name string, extra ...string) {
+			q := &plQuery{Name: name, QType: dns.TypeA, Addr: cli, Answer: c01Answer(rnd.Fork(6), name, dns.TypeA)}
+			emit(ps, q, append(ps.listsClasses(), extra...)...)
+			ps.recordAsk(q, &ps.last)
+		}
+		step("b.a.test.", "prelude-list-enabled-blocks")
+		ps.setList(t, 0, false)
+		step("b.a.test.", "prelude-list-disabled-forwards")
+		step("xa.test.")
+		ps.setList(t, 0, true)
+		step("B.a.test.", "prelude-list-reenabled-blocks")
+		ps.setList(t, 1, false)
+		ps.setList(t, 0, false)
+		step("a.test.")
+		ps.setList(t, 0, true)
+		ps.setList(t, 1, true)
+		step("a.test.", "prelude-list-reenabled-blocks")
+		step("xa.test.", "prelude-list-reenabled-blocks")
+		out.Emit(ps.historyCase())
+		// an allow list over a user rule, disabled, enabled again
+		c2 := base()
+		c2.Custom = []*vfRule{{ID: 0, Pattern: "||a.test^"}}
+		c2.Lists = []*plList{{Name: "ads", Rules: []*vfRule{{ID: 100, Pattern: "||x.test^"}}},
+			{Name: "ok", White: true, Rules: []*vfRule{{ID: 200, Pattern: "||b.a.test^"}}}}
+		ps = plNewServer(t, c2)
+		step("b.a.test.", "prelude-allow-list-enabled-passes")
+		ps.setList(t, 1, false)
+		step("b.a.test.", "prelude-allow-list-disabled-blocks")
+		ps.setList(t, 1, true)
+		step("b.a.test.", "prelude-allow-list-enabled-passes")
+		out.Emit(ps.historyCase())
+	}
+	nL := out.Scale(30, 900)
+	for i := 0; i < nL; i++ {
+		c := plGenCfg(rnd, vfNames)
+		if rnd.Chance(3, 4) {
+			c.ProtEnabled, c.Deadline, c.Filtering = true, 0, true
+		}
+		plGenLists(rnd, c, vfNames)
+		ps := plNewServer(t, c)
+		plRunLists(t, out, rnd, ps, 10, func() *plQuery {
+			name := vfMixCase(rnd, vfPick(rnd, vfNames)) + "."
+			qt := vfPick(rnd, vfQTypes[:7])
+			return &plQuery{Name: name, QType: qt, Addr: netip.MustParseAddr(vfPick(rnd, plClientAddrs)), Answer: c01Answer(rnd, name, qt)}
+		}, emit)
 	}
 
 	// --- round 2 random configurations
